@@ -672,6 +672,6 @@ def run(tier, seed):
 MANIFEST = {
     "engine": "G",
     "technique": "exhaustive fault enumeration on the real mutable reader: share files of really published versions are captured, damaged with an independent field map (every byte flip, every truncation length, every header field / offset at edge values, every hash node / block / salt / signature / key swapped with zeros, the other version, another file, a sibling share; every assignment of 10 substitution states to the shares, incl. shares re-signed by an attacker; duplicated share numbers) and read back through MutableFileNode",
-    "text": "Each damaged layout is written as real share files to real storage servers and read with download_best_version() and a ranged MutableFileVersion.read() through nodes built from the read-cap and the write-cap (fresh, and after a previous read). The result must be the contents of v1 or v2 or an error, never other bytes, exactly v2 whenever k untouched v2 shares are present, and the read must terminate; a read-cap node must not be able to write and a verify-cap must not yield a readable node.",
+    "text": "Each damaged layout is written as real share files to real storage servers and read with download_best_version() and a ranged MutableFileVersion.read() through nodes built from the read-cap and the write-cap (fresh, and after a previous read). The result must be the contents of v1 or v2 or an error, never other bytes, exactly v2 whenever k untouched v2 shares are present, and the read must terminate; a read-cap node must not be able to write and a verify-cap must not yield a readable node. Also cooperating servers: one share's hash chain plants a leaf for another share whose forged block matches it (every ordered pair).",
     "note": "Catalogue is closed and fully enumerated (counts per class in evidence); SHA-256d/RSA-PSS assumed unforgeable; default delivery order; substitution/field/duplicate classes are repeated with CPU-pool results delivered in a later reactor turn as in production.",
 }
